@@ -268,6 +268,12 @@ class Server(Acceptor):
         self.serviceAccepts()  # populate .axes
         while self.axes:
             cs, ca = self.axes.popleft()
+            try:
+                cs.getpeername()
+            except OSError as ex:  # peer reset or closed before we got here
+                logger.error("Accepted connection from %s already gone. %s\n", ca, ex)
+                cs.close()
+                continue  # nothing to serve
             if ca != cs.getpeername() or self.eha[1] != cs.getsockname()[1]: # only port on eha
                 raise ValueError("Accepted socket host addresses malformed for "
                                  "peer. ca {0} != {1} or ha port {2} != {3}\n"
@@ -546,6 +552,12 @@ class ServerTls(Server):
         self.serviceAccepts()  # populate .axes
         while self.axes:
             cs, ca = self.axes.popleft()
+            try:
+                cs.getpeername()
+            except OSError as ex:  # peer reset or closed before we got here
+                logger.error("Accepted connection from %s already gone. %s\n", ca, ex)
+                cs.close()
+                continue  # nothing to serve
             if ca != cs.getpeername() or self.eha[1] != cs.getsockname()[1]: # only port on eha
                 raise ValueError("Accepted socket host addresses malformed for "
                                  "peer. ca {0} != {1} or ha port {2} != {3}\n"
